@@ -4,6 +4,9 @@ import (
 	"fmt"
 	"strings"
 	"testing"
+	"time"
+
+	"github.com/mdzio/go-mqtt/message"
 
 	"verif/harness/out"
 	"verif/harness/rawclient"
@@ -32,26 +35,58 @@ func (t c02Tok) String() string {
 // strictOrder: the first PUBREL of every exchange is sent in the order the
 // exchanges were opened, as MQTT-4.6.0 requires of a sender; then hand-over is
 // demanded at PUBREL time. Otherwise only never-before / exactly-once are.
+// c02Env abstracts the two roles: the broker (raw publisher and raw subscriber
+// over net.Pipe in a bubble) and the client library (scripted TCP peer, message
+// callback).
+type c02Env interface {
+	send(p *rc.Packet)   // from the sender under test's peer
+	quiesce() bool       // everything sent so far has been processed
+	acks() []string      // acknowledgements received since the last call
+	handed() []delivered // messages handed on since the last call
+	alive() bool
+}
+
+type c02BrokerEnv struct{ pub, sub *bclient }
+
+func (e *c02BrokerEnv) send(p *rc.Packet) { e.pub.SendPacket(p) }
+func (e *c02BrokerEnv) quiesce() bool     { settle(); return true }
+func (e *c02BrokerEnv) alive() bool       { return !e.pub.Closed() && !e.sub.Closed() }
+func (e *c02BrokerEnv) acks() []string {
+	var a []string
+	for _, ev := range e.pub.fresh() {
+		a = append(a, fmt.Sprintf("%s(%d)", rc.TypeName(ev.P.Type), ev.P.ID))
+	}
+	return a
+}
+func (e *c02BrokerEnv) handed() []delivered { return publishesIn(e.sub.fresh()) }
+
 func c02Script(t *testing.T, script []c02Tok, strictOrder bool, seed uint64, idx int) {
 	var names []string
 	for _, tk := range script {
 		names = append(names, tk.String())
 	}
-	params := map[string]interface{}{"script": strings.Join(names, " "), "strict_order": strictOrder}
+	params := map[string]interface{}{"role": "broker", "script": strings.Join(names, " "), "strict_order": strictOrder}
 	bubble(t, "c02", params, func(cl *cleanup) {
 		w := newWorld(worldCfg{BufferSize: 16384})
 		cl.add(w.shutdown)
-		fail := func(sig, desc string) { out.Violation(sig, desc, params) }
 		sub, ack := w.connectB("sub", connectOpts{Clean: true, KeepAlive: 6000})
 		pub, ack2 := w.connectB("pub", connectOpts{Clean: true, KeepAlive: 6000, Policy: rawclient.AckNone})
 		if ack == nil || ack2 == nil {
-			fail("c02:connect", "no CONNACK")
+			out.Violation("c02:connect", "no CONNACK", params)
 			return
 		}
 		if sa, _ := sub.subscribeB([]string{"c02/#"}, []byte{2}); sa == nil {
-			fail("c02:suback", "no SUBACK")
+			out.Violation("c02:suback", "no SUBACK", params)
 			return
 		}
+		c02Run(&c02BrokerEnv{pub, sub}, script, strictOrder, seed, idx, params, 16384)
+	})
+}
+
+// c02Run executes a script against an environment and applies the receiver-side oracle.
+func c02Run(env c02Env, script []c02Tok, strictOrder bool, seed uint64, idx int, params map[string]interface{}, ring int) {
+	fail := func(sig, desc string) { out.Violation(sig, desc, params) }
+	{
 		var uids uidGen
 		type exch struct {
 			uid      uint64
@@ -69,7 +104,7 @@ func c02Script(t *testing.T, script []c02Tok, strictOrder bool, seed uint64, idx
 			switch tk.kind {
 			case '1':
 				uid := uids.next()
-				pub.SendPacket(&rc.Packet{Type: rc.PUBLISH, QoS: 1, ID: 10 + tk.id, Dup: r.Intn(4) == 0, Topic: []byte("c02/q1"), Payload: spec.MakePayload(uid, uint32(step), 40+r.Intn(200))})
+				env.send(&rc.Packet{Type: rc.PUBLISH, QoS: 1, ID: 10 + tk.id, Dup: r.Intn(4) == 0, Topic: []byte("c02/q1"), Payload: spec.MakePayload(uid, uint32(step), 40+r.Intn(200))})
 				wantAcks = []string{fmt.Sprintf("PUBACK(%d)", 10+tk.id)}
 				wantHand = []uint64{uid}
 			case '2':
@@ -81,10 +116,10 @@ func c02Script(t *testing.T, script []c02Tok, strictOrder bool, seed uint64, idx
 					e = &exch{uid: uid, order: nOpen}
 					open[tk.id] = e
 				}
-				pub.SendPacket(&rc.Packet{Type: rc.PUBLISH, QoS: 2, ID: tk.id, Dup: dup, Topic: []byte("c02/q2"), Payload: spec.MakePayload(uid, uint32(step), 40+r.Intn(3000))})
+				env.send(&rc.Packet{Type: rc.PUBLISH, QoS: 2, ID: tk.id, Dup: dup, Topic: []byte("c02/q2"), Payload: spec.MakePayload(uid, uint32(step), 40+r.Intn(3000))})
 				wantAcks = []string{fmt.Sprintf("PUBREC(%d)", tk.id)}
 			case 'R':
-				pub.SendPacket(&rc.Packet{Type: rc.PUBREL, ID: tk.id})
+				env.send(&rc.Packet{Type: rc.PUBREL, ID: tk.id})
 				wantAcks = []string{fmt.Sprintf("PUBCOMP(%d)", tk.id)}
 				if e := open[tk.id]; e != nil && !e.released {
 					e.released = true
@@ -94,27 +129,27 @@ func c02Script(t *testing.T, script []c02Tok, strictOrder bool, seed uint64, idx
 				}
 			case 'F':
 				sent := 0
-				for sent < 2*16384+500 {
-					pub.SendPacket(&rc.Packet{Type: rc.PUBLISH, Topic: []byte("fill/x"), Payload: spec.MakePayload(uids.next(), 0, 2500)})
+				for sent < 2*ring+500 {
+					env.send(&rc.Packet{Type: rc.PUBLISH, Topic: []byte("fill/x"), Payload: spec.MakePayload(uids.next(), 0, 2500)})
 					sent += 2510
 				}
 			}
-			settle()
-			if pub.Closed() || sub.Closed() {
+			if !env.quiesce() {
+				fail("c02:barrier", fmt.Sprintf("step %d %v: no quiescence", step, tk))
+				return
+			}
+			if !env.alive() {
 				fail("c02:connection-lost", fmt.Sprintf("step %d %v: a connection was closed", step, tk))
 				return
 			}
-			// acknowledgements on the publisher's wire
-			var gotAcks []string
-			for _, e := range pub.fresh() {
-				gotAcks = append(gotAcks, fmt.Sprintf("%s(%d)", rc.TypeName(e.P.Type), e.P.ID))
-			}
+			// acknowledgements on the sender's wire
+			gotAcks := env.acks()
 			if strings.Join(gotAcks, ",") != strings.Join(wantAcks, ",") {
-				fail("c02:acks", fmt.Sprintf("step %d %v: publisher received [%s], expected [%s]", step, tk, strings.Join(gotAcks, ","), strings.Join(wantAcks, ",")))
+				fail("c02:acks", fmt.Sprintf("step %d %v: sender received [%s], expected [%s]", step, tk, strings.Join(gotAcks, ","), strings.Join(wantAcks, ",")))
 				return
 			}
-			// hand-overs on the subscriber's wire
-			got := publishesIn(sub.fresh())
+			// hand-overs
+			got := env.handed()
 			for _, d := range got {
 				if !d.ok {
 					fail("c02:payload", fmt.Sprintf("step %d %v: forwarded payload corrupted", step, tk))
@@ -180,10 +215,10 @@ func c02Script(t *testing.T, script []c02Tok, strictOrder bool, seed uint64, idx
 				}
 			}
 			e := open[oldest]
-			pub.SendPacket(&rc.Packet{Type: rc.PUBREL, ID: oldest})
-			settle()
-			pub.fresh()
-			for _, d := range publishesIn(sub.fresh()) {
+			env.send(&rc.Packet{Type: rc.PUBREL, ID: oldest})
+			env.quiesce()
+			env.acks()
+			for _, d := range env.handed() {
 				handedCount[d.uid]++
 			}
 			if handedCount[e.uid] != 1 {
@@ -209,7 +244,7 @@ func c02Script(t *testing.T, script []c02Tok, strictOrder bool, seed uint64, idx
 		if idx%500 == 0 {
 			out.Sample("c02", 3, params)
 		}
-	})
+	}
 }
 
 // genScript builds a random script over nid packet identifiers.
@@ -315,6 +350,101 @@ func TestC02Broker(t *testing.T) {
 		sc := genScript(r, 3+r.Intn(2), 6+r.Intn(10), strict)
 		out.Begin(id, seed, nil)
 		c02Script(t, sc, strict, seed, g)
+		out.End()
+	}
+}
+
+// ---------------------------------------------------------------------------
+// client role: the library Client is the receiver, a scripted TCP peer sends.
+
+type c02ClientEnv struct {
+	s    *session
+	log  *cbLog
+	mark int
+}
+
+func (e *c02ClientEnv) send(p *rc.Packet) { e.s.srv.SendPacket(p) }
+func (e *c02ClientEnv) quiesce() bool     { return e.s.barrier(10 * time.Second) }
+func (e *c02ClientEnv) alive() bool       { return !e.s.srv.Closed() }
+func (e *c02ClientEnv) acks() []string {
+	var a []string
+	evs := e.s.srv.Since(e.mark)
+	e.mark += len(evs)
+	for _, ev := range evs {
+		switch ev.P.Type {
+		case rc.PUBACK, rc.PUBREC, rc.PUBCOMP, rc.PUBREL:
+			a = append(a, fmt.Sprintf("%s(%d)", rc.TypeName(ev.P.Type), ev.P.ID))
+		}
+	}
+	return a
+}
+func (e *c02ClientEnv) handed() []delivered {
+	var ds []delivered
+	for _, l := range e.log.take() {
+		ds = append(ds, l...)
+	}
+	return ds
+}
+
+func c02ClientScript(script []c02Tok, strictOrder bool, seed uint64, idx int) {
+	var names []string
+	for _, tk := range script {
+		names = append(names, tk.String())
+	}
+	params := map[string]interface{}{"role": "client", "script": strings.Join(names, " "), "strict_order": strictOrder}
+	s, err := openSession(nil, 16384)
+	if err != nil {
+		out.Inconclusive("session: "+err.Error(), nil)
+		return
+	}
+	defer s.closeAll()
+	log := &cbLog{got: map[int][]delivered{}}
+	m := message.NewSubscribeMessage()
+	m.AddTopic([]byte("c02/#"), 2)
+	done := make(chan struct{}, 1)
+	if err := s.cln.Subscribe(m, func(msg, ack message.Message, err error) error { done <- struct{}{}; return nil },
+		func(pm *message.PublishMessage) error { log.addQ(0, pm); return nil }); err != nil {
+		out.Violation("c02:subscribe", err.Error(), params)
+		return
+	}
+	var sub *rc.Packet
+	if err := s.srv.WaitFor(func(l []rawclient.Event, closed bool) bool {
+		for _, e := range l {
+			if e.P.Type == rc.SUBSCRIBE {
+				sub = e.P
+				return true
+			}
+		}
+		return false
+	}, 5*time.Second); err != nil {
+		out.Inconclusive("no SUBSCRIBE from the client", nil)
+		return
+	}
+	s.srv.SendPacket(&rc.Packet{Type: rc.SUBACK, ID: sub.ID, Codes: []byte{2}})
+	select {
+	case <-done:
+	case <-time.After(5 * time.Second):
+		out.Inconclusive("Subscribe did not complete", nil)
+		return
+	}
+	env := &c02ClientEnv{s: s, log: log, mark: s.srv.LogLen()}
+	c02Run(env, script, strictOrder, seed, idx, params, 16384)
+}
+
+func TestC02Client(t *testing.T) {
+	n := pick(400, 12000)
+	for g := 0; g < n; g++ {
+		id := fmt.Sprintf("c02/client/%d", g)
+		if !mine(g) || !out.Only(id) {
+			continue
+		}
+		seed := caseSeed("c02c", g)
+		r := spec.NewRand(seed)
+		strict := g%4 != 0
+		sc := genScript(r, 2+r.Intn(3), 3+r.Intn(9), strict)
+		out.Begin(id, seed, nil)
+		c02ClientScript(sc, strict, seed, g)
+		out.Count("c02.client_scripts", 1)
 		out.End()
 	}
 }
